@@ -22,27 +22,32 @@ def resolveFut (st : State) (f : Nat) (v : FutSt) : State :=
 def taskCancel (st : State) (t : Nat) (anyio : Bool) : State :=
   let tk := st.tasks t
   if tk.st = .done then st else
-  let st := st.setTask t (fun x => { x with ncancel := x.ncancel + 1 })
+  let st := st.setTask t (fun x =>
+    { x with ncancel := x.ncancel + 1,
+             nNative := if anyio then x.nNative else x.nNative + 1,
+             nAnyio := if anyio then x.nAnyio + 1 else x.nAnyio })
   match tk.st with
   | .blocked f => resolveFut st f (.cancelled anyio)
   | _ => st.setTask t (fun x => { x with mustCancel := true, mcAnyio := anyio })
 
 /-- `Task.uncancel()` called `n` times -/
 def taskUncancel (st : State) (t : Nat) (n : Nat) : State :=
-  st.setTask t (fun x => { x with ncancel := x.ncancel - n })
+  st.setTask t (fun x =>
+    { x with ncancel := x.ncancel - n, nUncancel := x.nUncancel + min n x.ncancel })
 
 /-! ### `_effectively_cancelled`, `_parent_cancellation_is_visible_to_us` -/
 
-def effCancelledGo : Nat → State → Option Nat → Bool
-  | 0, _, _ => false
-  | _, _, none => false
-  | fuel + 1, st, some s =>
+/-- the walk of `_effectively_cancelled` along a chain of scopes (nearest first) -/
+def effCancelledList (st : State) : List Nat → Bool
+  | [] => false
+  | s :: rest =>
     if (st.scopes s).cancelCalled then true
     else if (st.scopes s).shield then false
-    else effCancelledGo fuel st (st.scopes s).parent
+    else effCancelledList st rest
 
+/-- `scope._effectively_cancelled`.  A scope that was never entered has no parent. -/
 def effCancelled (st : State) (s : Nat) : Bool :=
-  effCancelledGo (st.nScopes + 1) st (some s)
+  effCancelledList st (if (st.scopes s).chain = [] then [s] else (st.scopes s).chain)
 
 def parentVisible (st : State) (s : Nat) : Bool :=
   match (st.scopes s).parent with
@@ -89,18 +94,17 @@ def deliver (st : State) (origin : Nat) : State :=
     (r.1.setScope origin (fun x => { x with deliver := true })).schedule (.deliver origin)
   else r.1.setScope origin (fun x => { x with deliver := false })
 
-/-- `_restart_cancellation_in_parent` -/
-def restartGo : Nat → State → Option Nat → State
-  | 0, st, _ => st
-  | _, st, none => st
-  | fuel + 1, st, some s =>
+/-- `_restart_cancellation_in_parent`: walk up the ancestors -/
+def restartList (st : State) : List Nat → State
+  | [] => st
+  | s :: rest =>
     if (st.scopes s).cancelCalled then
       if (st.scopes s).deliver then st else deliver st s
     else if (st.scopes s).shield then st
-    else restartGo fuel st (st.scopes s).parent
+    else restartList st rest
 
 def restartInParent (st : State) (s : Nat) : State :=
-  restartGo (st.nScopes + 1) st (st.scopes s).parent
+  restartList st (st.scopes s).chain.tail
 
 /-- `CancelScope.cancel()` -/
 def cancelScope (st : State) (s : Nat) (byDeadline : Bool) : State :=
@@ -130,9 +134,13 @@ def enterScope (st : State) (t s : Nat) : Option State :=
   let st := st.setScope s (fun x => { x with host := some t, tasks := t :: x.tasks })
   let st :=
     if !tk.hasState then
-      st.setTask t (fun x => { x with hasState := true, scope := some s })
+      (st.setTask t (fun x => { x with hasState := true, scope := some s })).setScope s
+        (fun x => { x with chain := [s] })
     else
-      let st := st.setScope s (fun x => { x with parent := tk.scope })
+      let pchain : List Nat := match tk.scope with
+        | some p => (st.scopes p).chain
+        | none => []
+      let st := st.setScope s (fun x => { x with parent := tk.scope, chain := s :: pchain })
       let st := st.setTask t (fun x => { x with scope := some s })
       match tk.scope with
       | some p =>
@@ -210,18 +218,31 @@ def setDeadline (st : State) (s : Nat) (d : Option Nat) : State :=
     else st
   if (st.scopes s).active ∧ !(st.scopes s).cancelCalled then armTimeout st s else st
 
-/-- `current_effective_deadline()`: `none` = +inf, `some none` = -inf -/
-def effDeadlineGo : Nat → State → Option Nat → Option Nat → Option (Option Nat)
-  | 0, _, _, acc => some acc
-  | _, _, none, acc => some acc
-  | fuel + 1, st, some s, acc =>
+/-- a point on the extended clock -/
+inductive EDeadline where
+  | negInf
+  | at (d : Nat)
+  | inf
+  deriving DecidableEq, Repr
+
+def minOpt : Option Nat → Option Nat → Option Nat
+  | none, d => d
+  | some a, none => some a
+  | some a, some d => some (min a d)
+
+/-- `current_effective_deadline()` along the chain of the current scope; `acc = none` is +inf -/
+def effDeadlineList (st : State) : List Nat → Option Nat → EDeadline
+  | [], acc => (match acc with | none => .inf | some d => .at d)
+  | s :: rest, acc =>
     let sc := st.scopes s
-    let acc := match acc, sc.deadline with
-      | none, d => d
-      | some a, none => some a
-      | some a, some d => some (min a d)
-    if sc.cancelCalled then none
-    else if sc.shield then some acc
-    else effDeadlineGo fuel st sc.parent acc
+    let acc := minOpt acc sc.deadline
+    if sc.cancelCalled then .negInf
+    else if sc.shield then (match acc with | none => .inf | some d => .at d)
+    else effDeadlineList st rest acc
+
+def effDeadline (st : State) (t : Nat) : EDeadline :=
+  match (st.tasks t).scope with
+  | none => .inf
+  | some s => effDeadlineList st (st.scopes s).chain none
 
 end AnyioModel.Kernel
